@@ -1,0 +1,22 @@
+//go:build verif
+
+package retriever
+
+// Verification hook H2 (build tag "verif" only; see /verif/DESIGN.md §3 "Hooks").
+//
+// fsStep(site) is called immediately before every file-system mutation the dump path performs
+// (directory creation, fragment temp create / record write / compressor flush / close / rename,
+// checkpoint temp write / rename, manifest temp write / rename, checkpoint removal, and every
+// clean-up removal). A harness sets VerifFSStep to observe the output directory at that instant —
+// which is exactly what a kill -9 at that point would leave on disk — or to provoke a failure of
+// the operation that follows. With the tag off fsStep is an empty function (verif_nohooks.go) and
+// the calls compile to nothing.
+//
+// VerifFSStep must only be changed while no Dump is running.
+var VerifFSStep func(site string)
+
+func fsStep(site string) {
+	if step := VerifFSStep; step != nil {
+		step(site)
+	}
+}
